@@ -1,0 +1,290 @@
+//! verif-hooks: a small stepper around the real BMP state machine
+//! (`state_machine::BmpState`), for the external verification harness
+//! (properties C05, C15 and the RIB-level properties that need real
+//! `Update`s produced from real BMP bytes).
+//!
+//! Nothing here has behaviour of its own: `step` parses the bytes with
+//! routecore's `Message::from_octets` (exactly as `RouterHandler` does) and
+//! calls `BmpState::process_msg`; everything else is read-only inspection.
+//! Compiled only with the off-by-default cargo feature `verif-hooks`.
+
+use std::net::IpAddr;
+use std::sync::atomic::Ordering::SeqCst;
+use std::sync::Arc;
+
+use bytes::Bytes;
+use routecore::bmp::message::Message as BmpMsg;
+
+use crate::ingress::{IngressId, Register};
+use crate::metrics::{OutputFormat, Source, Target};
+use crate::payload::Update;
+
+use super::metrics::BmpTcpInMetrics;
+use super::state_machine::{
+    BmpState, BmpStateIdx, BmpStateMachineMetrics, MessageType,
+};
+use super::status_reporter::BmpTcpInStatusReporter;
+
+/// What `BmpState::process_msg` returned for one message.
+#[derive(Debug)]
+pub enum StepOutcome {
+    /// `MessageType::InvalidMessage` with its error text.
+    Invalid(String),
+    /// `MessageType::Other`.
+    Other,
+    /// `MessageType::StateTransition`.
+    Transition,
+    /// `MessageType::RoutingUpdate`: the real `Update` that `RouterHandler`
+    /// would pass to `Gate::update_data`.
+    Routing(Update),
+    /// `MessageType::Aborted`.
+    Aborted,
+}
+
+/// One up peer as stored in `PeerStates` (read-only copy).
+#[derive(Clone, Debug, PartialEq, Eq, PartialOrd, Ord)]
+pub struct PeerView {
+    /// The fields that make up `PerPeerHeader`'s `Eq`/`Hash` identity.
+    pub peer_type: u8,
+    pub flags: u8,
+    pub distinguisher: [u8; 8],
+    pub address: IpAddr,
+    pub asn: u32,
+    pub bgp_id: [u8; 4],
+    pub eor_capable: bool,
+    /// `pending_eors` as sorted `(afi_safi, post_policy, adj_rib_out)` debug strings.
+    pub pending_eors: Vec<String>,
+    pub ingress_id: IngressId,
+    /// `session_config.four_octet_enabled()`.
+    pub four_octet: bool,
+}
+
+/// `RouterBmpMetrics` of the stepper's router, read straight from the atomics.
+#[derive(Clone, Debug, PartialEq, Eq)]
+pub struct SmMetrics {
+    /// 0 Initiating, 1 Dumping, 2 Updating, 3 Terminated, 4 Aborted.
+    pub state: u8,
+    pub received_prefixes: usize,
+    pub unknown_peer_msgs: usize,
+    pub reparsed_updates: usize,
+    pub unprocessable_msgs: usize,
+    pub announcements: usize,
+    pub withdrawals: usize,
+    pub peers_up: usize,
+    pub peers_up_eor_capable: usize,
+    pub peers_up_dumping: usize,
+}
+
+fn idx(i: BmpStateIdx) -> u8 {
+    match i {
+        BmpStateIdx::Initiating => 0,
+        BmpStateIdx::Dumping => 1,
+        BmpStateIdx::Updating => 2,
+        BmpStateIdx::Terminated => 3,
+        BmpStateIdx::Aborted => 4,
+    }
+}
+
+/// Drives one real `BmpState` message by message.
+pub struct BmpStepper {
+    state: Option<BmpState>,
+    metrics: Arc<BmpStateMachineMetrics>,
+    register: Arc<Register>,
+    router_id: Arc<String>,
+    bmp_ingress_id: IngressId,
+}
+
+impl Default for BmpStepper {
+    fn default() -> Self {
+        Self::new()
+    }
+}
+
+impl BmpStepper {
+    /// A fresh session on a fresh `ingress::Register` (`Register::new()`,
+    /// serial starting at 1). The BMP connection itself takes the first id
+    /// (1), so the monitored peers get 2, 3, … in order of first Peer Up.
+    /// Router id (the metrics label) is `"1"`, as in rotonda's own tests.
+    pub fn new() -> Self {
+        let register = Arc::new(Register::new());
+        let bmp_ingress_id = register.register();
+        Self::with_parts(
+            register,
+            bmp_ingress_id,
+            "1",
+            Arc::new(BmpStateMachineMetrics::new()),
+        )
+    }
+
+    /// A fresh session (phase Initiating) on a caller-supplied register and
+    /// metrics object, e.g. to model a reconnect of the same router.
+    pub fn with_parts(
+        register: Arc<Register>,
+        bmp_ingress_id: IngressId,
+        router_id: &str,
+        metrics: Arc<BmpStateMachineMetrics>,
+    ) -> Self {
+        let parent = Arc::new(BmpTcpInStatusReporter::new(
+            "verif",
+            Arc::new(BmpTcpInMetrics::default()),
+        ));
+        let router_id = Arc::new(router_id.to_string());
+        let state = BmpState::new(
+            bmp_ingress_id,
+            router_id.clone(),
+            parent,
+            metrics.clone(),
+            register.clone(),
+        );
+        Self {
+            state: Some(state),
+            metrics,
+            register,
+            router_id,
+            bmp_ingress_id,
+        }
+    }
+
+    /// Feed one complete BMP message (common header included).
+    ///
+    /// `Err` = routecore's `Message::from_octets` rejected the bytes; the
+    /// state machine was not called (this is what `RouterHandler` does too).
+    /// `Ok((phase index after the step, outcome))` otherwise.
+    pub fn step(&mut self, msg: Bytes) -> Result<(u8, StepOutcome), String> {
+        let bmp_msg =
+            BmpMsg::from_octets(msg).map_err(|e| format!("{e}"))?;
+        let state = self.state.take().expect("state machine present");
+        let res =
+            state.process_msg(std::time::Instant::now(), bmp_msg, None);
+        let outcome = match res.message_type {
+            MessageType::InvalidMessage { err, .. } => {
+                StepOutcome::Invalid(err)
+            }
+            MessageType::Other => StepOutcome::Other,
+            MessageType::StateTransition => StepOutcome::Transition,
+            MessageType::RoutingUpdate { update } => {
+                StepOutcome::Routing(update)
+            }
+            MessageType::Aborted => StepOutcome::Aborted,
+        };
+        let phase = idx(res.next_state.state_idx());
+        self.state = Some(res.next_state);
+        Ok((phase, outcome))
+    }
+
+    /// Phase index: 0 Initiating, 1 Dumping, 2 Updating, 3 Terminated, 4 Aborted.
+    pub fn phase(&self) -> u8 {
+        idx(self.state.as_ref().expect("state").state_idx())
+    }
+
+    /// The peers that are 'up', sorted (the underlying map is a `HashMap`).
+    pub fn peers(&self) -> Vec<PeerView> {
+        let mut v: Vec<PeerView> = self
+            .state
+            .as_ref()
+            .and_then(|s| s.verif_peer_states())
+            .map(|ps| {
+                ps.verif_peers()
+                    .map(|(pph, st)| {
+                        let mut pending: Vec<String> = st
+                            .pending_eors
+                            .iter()
+                            .map(|e| {
+                                format!(
+                                    "{:?}/{}/{}",
+                                    e.afi_safi, e.post_policy, e.adj_rib_out
+                                )
+                            })
+                            .collect();
+                        pending.sort();
+                        PeerView {
+                            peer_type: pph.peer_type().into(),
+                            flags: pph.flags(),
+                            distinguisher: pph
+                                .distinguisher()
+                                .try_into()
+                                .unwrap(),
+                            address: pph.address(),
+                            asn: pph.asn().into_u32(),
+                            bgp_id: pph.bgp_id(),
+                            eor_capable: st.eor_capable,
+                            pending_eors: pending,
+                            ingress_id: st.ingress_id,
+                            four_octet: st
+                                .session_config
+                                .four_octet_enabled(),
+                        }
+                    })
+                    .collect()
+            })
+            .unwrap_or_default();
+        v.sort();
+        v
+    }
+
+    /// Everything the state machine remembers, as one canonical string
+    /// (phase, sysName, sorted peers). Two equal fingerprints = equal state.
+    pub fn fingerprint(&self) -> String {
+        format!(
+            "{}|{:?}|{:?}",
+            self.phase(),
+            self.state.as_ref().and_then(|s| s.verif_sys_name()),
+            self.peers()
+        )
+    }
+
+    /// The per-router state machine metrics, `None` while no entry exists
+    /// (reading does not create the entry).
+    pub fn metrics(&self) -> Option<SmMetrics> {
+        self.metrics.verif_router(&self.router_id).map(|m| SmMetrics {
+            state: idx(m.bmp_state_machine_state.load(SeqCst)),
+            received_prefixes: m.num_received_prefixes.load(SeqCst),
+            unknown_peer_msgs: m
+                .num_bmp_route_monitoring_msgs_with_unknown_peer
+                .load(SeqCst),
+            reparsed_updates: m
+                .num_bgp_updates_reparsed_due_to_incorrect_header_flags
+                .load(SeqCst),
+            unprocessable_msgs: m.num_unprocessable_bmp_messages.load(SeqCst),
+            announcements: m.num_announcements.load(SeqCst),
+            withdrawals: m.num_withdrawals.load(SeqCst),
+            peers_up: m.num_peers_up.load(SeqCst),
+            peers_up_eor_capable: m.num_peers_up_eor_capable.load(SeqCst),
+            peers_up_dumping: m.num_peers_up_dumping.load(SeqCst),
+        })
+    }
+
+    /// `routers.len()`, exported as `bmp_num_connected_routers`.
+    pub fn num_router_entries(&self) -> usize {
+        self.metrics.verif_num_routers()
+    }
+
+    /// What `RouterHandler` does when a connection is *aborted*
+    /// (`remove_router_metrics`); it is not called on an ordinary disconnect.
+    pub fn remove_router_metrics(&self) {
+        self.metrics.remove_router_metrics(&self.router_id);
+    }
+
+    /// The real Prometheus exposition of the state machine metrics.
+    pub fn metrics_text(&self, unit_name: &str) -> String {
+        let mut target = Target::new(OutputFormat::Prometheus);
+        self.metrics.append(unit_name, &mut target);
+        target.into_string()
+    }
+
+    pub fn sm_metrics(&self) -> Arc<BmpStateMachineMetrics> {
+        self.metrics.clone()
+    }
+
+    pub fn register(&self) -> Arc<Register> {
+        self.register.clone()
+    }
+
+    pub fn bmp_ingress_id(&self) -> IngressId {
+        self.bmp_ingress_id
+    }
+
+    pub fn router_id(&self) -> Arc<String> {
+        self.router_id.clone()
+    }
+}
